@@ -32,6 +32,14 @@ type Sched struct {
 	MaxParked int
 	Preempts  int
 	stopped   bool
+	// ClockChance > 0: with probability 1/ClockChance a scheduling step advances the fake clock by a
+	// drawn amount (up to ClockMax) instead of releasing a goroutine, so that time-outs can expire
+	// while other goroutines are still working.
+	ClockChance int
+	ClockMax    time.Duration
+	SimTime     time.Duration
+	// OnStep is called after every scheduling step (history recording).
+	OnStep func()
 	// Idle is called when nothing is parked and the run is not done; it must make progress
 	// possible (typically by advancing the clock) or return false to report a stall.
 	Idle func() bool
@@ -134,7 +142,18 @@ func (s *Sched) Run(done func() bool, maxSteps int) string {
 		if s.Steps >= maxSteps {
 			return fmt.Sprintf("step budget of %d scheduling steps exhausted", maxSteps)
 		}
-		s.step()
+		if s.ClockChance > 0 && s.r.T.Draw(s.ClockChance) == 0 {
+			d := time.Duration(1+s.r.T.Draw(int(s.ClockMax/time.Millisecond))) * time.Millisecond
+			s.r.Decision("clock", d.String())
+			s.SimTime += d
+			s.Steps++
+			time.Sleep(d)
+		} else {
+			s.step()
+		}
+		if s.OnStep != nil {
+			s.OnStep()
+		}
 	}
 }
 
